@@ -15,7 +15,9 @@ Definition point_ok (p : point) : Prop := let '(x, y, z) := p in u64 x /\ u64 y 
     infinities since 4fc5f5f) *)
 Definition vertex_ok (p : point) : Prop :=
   point_ok p /\ let '(x, y, z) := p in nonfinite_bits x = false /\ nonfinite_bits y = false /\ nonfinite_bits z = false.
-Definition rect_ok (r : rect) : Prop := u64 (r_lat_lo r) /\ u64 (r_lat_hi r) /\ u64 (r_lng_lo r) /\ u64 (r_lng_hi r).
+(** a rectangle the decoder accepts: 64-bit patterns of a valid rectangle (41c9631) *)
+Definition rect_ok (r : rect) : Prop :=
+  (u64 (r_lat_lo r) /\ u64 (r_lat_hi r) /\ u64 (r_lng_lo r) /\ u64 (r_lng_hi r)) /\ rect_valid r = true.
 Definition cap_ok (c : cap) : Prop := point_ok (c_center c) /\ u64 (c_radius c).
 (** a Loop the lossless encoder can write and the decoder accepts: the vertex count is within
     maxEncodedVertices (Loop.encode itself does not check it) and the depth fits its 32-bit field *)
@@ -98,11 +100,11 @@ Proof. intros H. apply run_app. intros t lg. exists lg. now apply decode_cap_bod
 Lemma decode_rect_body_app r t lg : rect_ok r ->
   decode_rect_body ((encode_rect r ++ t) @ lg) = (r, t @ lg).
 Proof.
-  destruct r as [a b c e]. intros (Ha & Hb & Hc & He). unfold decode_rect_body, encode_rect.
+  destruct r as [a b c e]. intros ((Ha & Hb & Hc & He) & V). unfold decode_rect_body, encode_rect.
   cbn [r_lat_lo r_lat_hi r_lng_lo r_lng_hi] in *. norm_app.
   rewrite read_u8_cons by (rewrite version_byte_val; lia). rewrite version_ok, Z.eqb_refl. cbn [negb andb].
   rewrite read_u64_app by auto. rewrite read_u64_app by auto. rewrite read_u64_app by auto.
-  now rewrite read_u64_app by auto.
+  rewrite read_u64_app by auto. cbn [failed d_st negb andb]. now rewrite V.
 Qed.
 Lemma roundtrip_rect r : rect_ok r -> decode_rect (encode_rect r) = Ok r.
 Proof. intros H. apply run_app. intros t lg. exists lg. now apply decode_rect_body_app. Qed.
